@@ -1495,3 +1495,33 @@ def value_check_memos_are_keyed_on_what_they_read(ctx):
         bad is None,
         (f"{bad[1]}: two values that agree on the key but differ elsewhere get one answer - whether a value matches depends on which value was checked first" if bad else ""),
     )
+
+
+# ---------------------------------------------------------------------------------------- the rebuild after a change
+def rebuild_depends_on_the_built_flag_only(ctx):
+    """In the update method, whether the table is rebuilt depends on nothing but "has it been built": any other
+    condition is a guess at whether the change matters, and a change it misjudges is silently ignored."""
+    from .common import path_atoms
+
+    repo = ctx.repo
+    upd = A.update_method(repo)
+    b = A.build_method(repo)
+    ctx.touch(upd)
+    rv = recv_name(upd)
+    calls = [c for c in ast.walk(upd.node) if isinstance(c, ast.Call) and is_self_attr(c.func, b.name, selfname=rv)]
+    ctx.require(calls, f"{upd.key}: no rebuild call")
+    for c in calls:
+        extra = []
+        for atom in path_atoms(upd.node, c):
+            for e in (x for x in atom[1:] if isinstance(x, ast.AST)):
+                reads = {x.attr for x in ast.walk(e) if is_self_attr(x, selfname=rv)}
+                has_call = any(isinstance(x, ast.Call) for x in ast.walk(e))
+                if (reads - {"_compiled"}) or has_call:
+                    extra.append(e)
+        ctx.ob(
+            f"{upd.key}:rebuild-on-flag-only",
+            upd.loc(c),
+            f"`{short(c, 30)}` in {upd.name}() runs whenever the function has been built (no other condition on the way)",
+            not extra,
+            (f"the rebuild is also conditional on `{short(extra[0], 60)}`: a change that leaves this condition unchanged (a method replaced by another of the same signature, a priority, a mixin's change) is not rebuilt into the table and the old method keeps answering" if extra else ""),
+        )
